@@ -53,8 +53,19 @@ type Contract struct {
 	Extern   bool
 	File     string
 	Line     int
+	CallAsserts []CallAssert // assertions at named call sites inside this function
 	Ghost    []GhostUpdate // ghost updates performed at calls to this function (after the call)
 	Raw      []string
+}
+
+// CallAssert: "at_call <callee>#<n> assert label: expr" — checked in the
+// caller's state immediately before the n-th call of <callee> (display name).
+type CallAssert struct {
+	Callee string
+	N      int
+	Clause Clause
+	After  bool   // "after_call ... ghost x := expr": ghost update in the caller's state after the call
+	Var    string // ghost variable for After
 }
 
 type SpecFunc struct {
@@ -82,6 +93,7 @@ type Lemma struct {
 }
 
 type ContractSet struct {
+	GhostNames map[string]bool // every ghost variable named in a contract or spec file
 	Immutable []string // heap key prefixes "H|<pkgname>.<Type>|<field>" never written after construction
 	ByKey  map[string]*Contract // "pkgpath|key"
 	Specs  map[string]*SpecFunc
@@ -228,6 +240,15 @@ func (cs *ContractSet) loadFile(path, repoDir string) error {
 	data, err := os.ReadFile(path)
 	if err != nil {
 		return err
+	}
+	if cs.GhostNames == nil {
+		cs.GhostNames = map[string]bool{}
+	}
+	for _, m := range regexp.MustCompile(`ghost_(\w+)`).FindAllStringSubmatch(string(data), -1) {
+		cs.GhostNames[m[1]] = true
+	}
+	for _, m := range regexp.MustCompile(`(?m)^\s*(?://@)?\s*ghost\s+(\w+)\s*:=`).FindAllStringSubmatch(string(data), -1) {
+		cs.GhostNames[m[1]] = true
 	}
 	pkgPath := ""
 	isRepo := strings.HasPrefix(path, repoDir+"/")
@@ -415,6 +436,29 @@ func (cs *ContractSet) loadFile(path, repoDir string) error {
 						cur.Modifies = append(cur.Modifies, m)
 					}
 				}
+			case "at_call":
+				m := regexp.MustCompile(`^(\S+)#(\d+)\s+assert\s+(.*)$`).FindStringSubmatch(rest)
+				if m == nil {
+					return fmt.Errorf("%s:%d: at_call <callee>#<n> assert label: expr", path, lineNo)
+				}
+				c, err := parseClause(m[3], path, lineNo)
+				if err != nil {
+					return err
+				}
+				n, _ := strconv.Atoi(m[2])
+				cur.CallAsserts = append(cur.CallAsserts, CallAssert{Callee: m[1], N: n, Clause: c})
+			case "after_call":
+				m := regexp.MustCompile(`^(\S+)#(\d+)\s+ghost\s+(\w+)\s*:=\s*(.*)$`).FindStringSubmatch(rest)
+				if m == nil {
+					return fmt.Errorf("%s:%d: after_call <callee>#<n> ghost x := expr", path, lineNo)
+				}
+				c, err := parseClause(m[4], path, lineNo)
+				if err != nil {
+					return err
+				}
+				n, _ := strconv.Atoi(m[2])
+				cur.CallAsserts = append(cur.CallAsserts, CallAssert{Callee: m[1], N: n, Clause: c, After: true, Var: m[3]})
+				cs.GhostNames[m[3]] = true
 			case "nopanic":
 				cur.NoPanic = true
 			case "inline":
